@@ -1,7 +1,7 @@
 (** C15 - diff cost is proportional to the change, not to the tree.
     Statements only; proofs are in Persist.v. *)
 From Coq Require Import List NArith ZArith Bool.
-From Mast Require Import Prim Key Tree KeyOrder Codec Store Diff World Erase Build Spec Canon Level Inv Hist Persist.
+From Mast Require Import Prim Key Tree KeyOrder Codec Store Diff World Erase Build Spec Canon Level Inv Hist Persist Events DiffLinks DiffReads.
 Import ListNotations.
 
 (** diffing a persisted version with itself reads no node at all and reports nothing *)
@@ -17,6 +17,16 @@ Theorem C15_equal_links_skipped : forall fuel mo mn h c c' os ns,
 Proof.
   intros. cbn [diff_one d_old d_new d_mo d_mn link_eq]. rewrite bytes_eqb_refl. reflexivity.
 Qed.
+
+(** Whatever the two trees are - any key type, contents, heights, residency; any outcome - every node
+    the diff loads is a node that one of the two versions reaches: it never reads outside them.
+    (The replacement for the refuted 2*D+2 bound that is proved: reads are confined to the two
+    versions, equal links are skipped unloaded, and one version against itself reads nothing.) *)
+Theorem C15_reads_within_the_two_versions : forall (K V : Type) (cmp : K -> K -> comparison) (veq : V -> V -> bool) (layer : K -> nat)
+    (o : option (mast K V)) (n : mast K V),
+  Forall (fun e => match e with ELoad h => In h (names_l K V (m_root _ _ n) ++ onames K V o) | _ => True end)
+         (fst (diff _ _ cmp veq layer o n)).
+Proof. exact diff_reads. Qed.
 
 (** The 2*D+2 bound of the statement is FALSE of the model, which mirrors the implementation: the
     witness is the known finding C15-misaligned-first-key (bf=2, keys 17..48, then 16: D=4, 12
@@ -35,3 +45,4 @@ Proof. vm_compute. reflexivity. Qed.
 
 Print Assumptions C15_same_version_no_loads.
 Print Assumptions C15_equal_links_skipped.
+Print Assumptions C15_reads_within_the_two_versions.
